@@ -93,6 +93,12 @@ def run(rep, tier):
     for k in prog.closures_of(vc):
         if k.parent == vc.id and prog.reach_set([k.id]) & ipf:
             checkers.add(k.id)
+    # the checks may also be ordinary functions (or, once a new helper was inlined, direct calls of the protected-field test):
+    # anything validate_clause can reach that reaches is_protected_field
+    for fid in prog.reach_set([vc.id]):
+        g_ = prog.fns.get(fid)
+        if g_ is not None and fid != vc.id and (fid in ipf or prog.reach_set([fid]) & ipf):
+            checkers.add(fid)
     if len(checkers) < 2:
         raise CheckerFault("anchor missing: protected-field check closures in validate_clause (found %d)" % len(checkers))
     rep.note("check_closures", sorted(prog.fns[c].path.rsplit("::", 1)[1] for c in checkers))
@@ -113,6 +119,9 @@ def run(rep, tier):
             if nodes & checkers:
                 return True
             for a in e.args:
+                k_ = a.get("k") if isinstance(a, dict) else None
+                if k_ and "fn" in k_ and (k_["fn"].get("rid") in checkers or k_["fn"].get("id") in checkers):
+                    return True         # `opt.map_or(Ok(()), check_fn)`: the check is handed over as a fn item
                 for o in vc.slice_back_op(a):
                     if o[0] == "create" and o[1].cid in checkers:
                         return True
